@@ -26,7 +26,7 @@ ASSUMPTIONS = ["controls with a sample variance below 1e-8, or collinear in the 
                "to an O_APPEND file, the multiset of logged values is the reference (which worker simulates which path is not prescribed)"]
 REQUIRED_COUNTERS = ["price_checks", "stddev_checks", "each_path_once_checks", "control_variate_checks", "cv_mean_invariance",
                      "cv_variance_checks", "vector_payoff_cases", "spot_statistics_cases", "control_variates_object_reused",
-                     "concentrated_sample_cases", "symmetric_path_sets", "worker_process_runs", "worker_runs_with_two_or_more_simulating_processes"]
+                     "concentrated_sample_cases", "symmetric_path_sets", "same_engine_repricings", "worker_process_runs", "worker_runs_with_two_or_more_simulating_processes"]
 MIN_NONTRIVIAL = {"quick": 100, "thorough": 1500}
 THOROUGH_ROUNDS = 20      # the thorough tier runs the generators this many times (different seeds)
 
@@ -370,6 +370,37 @@ def run_case(case, R):
                             f"{used.tolist()} for a forward on the log-spot, a fresh object with the same products and prices gives {fresh.tolist()}", wit)
         except Exception as exc:  # noqa: BLE001
             R.violation("engine-raises-second-product", f"{type(exc).__name__}: {exc}", wit)
+    # ---- the same engine object priced again with another number of paths (bump-and-reprice loops): each pricing is the mean over exactly
+    #      its own paths
+    if case["seed"] % 2 == 0 and not conc and N >= 5:
+        sizes = [N, max(2, N // 3), N + 7, max(2, N // 2)]
+        extra = np.sort(rng.lognormal(0.0, 0.4, size=sum(sizes))) * 100.0 + np.arange(sum(sizes)) * 1e-6
+        extra = extra[rng.permutation(extra.size)]
+        proc3 = ScriptedProcess(list(extra), dim=1, rate=rate)
+        conf3 = ConfigurationStandard(mc_paths=sizes[0], seed=12345, control_variates=None, activate_spot_statistics=case["spot_stats"], nb_of_processes=1)
+        eng3 = Engine(conf3, proc3)
+        start = 0
+        try:
+            for run_no, nk in enumerate(sizes):
+                conf3.mc_paths = nk
+                st3 = eng3.price(product)
+                vals = extra[start:start + nk]
+                start += nk
+                Yk = (df * notional * np.asarray(fun(vals), dtype=float)).reshape(nk, dim)
+                got_p = np.atleast_1d(np.asarray(st3.price(no_control_variates=True), dtype=float))
+                got_e = np.atleast_1d(np.asarray(st3.mc_stddev(no_control_variates=True), dtype=float))
+                R.hit("same_engine_repricings")
+                ymx = float(np.max(np.abs(Yk)))
+                if not (np.allclose(got_p, Yk.mean(axis=0), rtol=1e-12, atol=1e-14 + 4e-15 * nk * ymx)
+                        and np.allclose(got_e, Yk.std(axis=0, ddof=1) / math.sqrt(nk), rtol=1e-10, atol=1e-14 + 4e-15 * nk * ymx)):
+                    rows = int(np.asarray(st3._payoff_statistics.stats).shape[0])
+                    R.violation("same-engine-repricing-not-the-mean-over-its-own-paths" + ("-fewer-paths-than-before" if run_no and nk < max(sizes[:run_no]) else ""),
+                                f"pricing number {run_no + 1} of one engine object with {nk} configured paths (earlier: {sizes[:run_no]}): price {got_p.tolist()}, "
+                                f"error {got_e.tolist()}; mean and std/sqrt(N) over its own {nk} paths: {Yk.mean(axis=0).tolist()}, "
+                                f"{(Yk.std(axis=0, ddof=1) / math.sqrt(nk)).tolist()} ({rows} rows in the payoff statistics)", wit)
+                    break
+        except Exception as exc:  # noqa: BLE001
+            R.violation("engine-raises-when-priced-again", f"{type(exc).__name__}: {exc}", wit)
     if N >= 3 and np.std(Y2[:, 0]) > 0:
         R.nontrivial_case(case["seed"])
     if case["seed"] % 40 == 0:
